@@ -411,7 +411,7 @@ func nestStore(cur Term, idx []Term, v Term) Term {
 }
 
 func (x *Exec) store(st *State, p *Ptr, v Value) {
-	if (p.Kind == pElem || p.Kind == pArr) && x.views[p.Obj.S] {
+	if (p.Kind == pElem || p.Kind == pArr) && x.views[p.Obj.S] != nil {
 		panic(unsupported{"UNSUPPORTED store through a slice of an array embedded in another object in " + x.funcName()})
 	}
 	leaves := flatten(p.Sub)
